@@ -512,7 +512,18 @@ theorem getD_ite_nil'' (s : Str) : (if s = [] then none else some s : Option Str
   by_cases h : s = [] <;> simp [h]
 
 /-- EXT-X-STREAM-INF + URI line: `unmarshal` inverts `marshal` on every field. -/
-theorem Variant.unmarshal_render (env : FloatEnvelope3) {v : Variant} (h : WFVariant v) :
+theorem FrFloatOK_elim {f : F64} (h : FrFloatOK f) : parseFloat (F64.fmtFixed 3 f) = .ok f := by
+  unfold FrFloatOK at h
+  split at h
+  · rename_i g hg; rw [hg, h]
+  · exact absurd h id
+
+theorem FrFloatOK_of_envelope (env : FloatEnvelope3) {f : F64} (h : WFFrameRate f) : FrFloatOK f := by
+  obtain ⟨k, hk, hf, hfmt⟩ := fmtFixed3_of_WF env h
+  unfold FrFloatOK
+  rw [hfmt, hf, env.parse k hk]
+
+theorem Variant.unmarshal_render {v : Variant} (h : WFVariant v) (hfl : OptAll v.frameRate FrFloatOK) :
     Variant.unmarshal (renderAttrs (variantAttrs v) ++ '\n' :: v.uri) = .ok v := by
   have hwf := WFAttrs_variantAttrs h
   have hnl := variantAttrs_no_nl h
@@ -524,7 +535,7 @@ theorem Variant.unmarshal_render (env : FloatEnvelope3) {v : Variant} (h : WFVar
   simp only [emptyOrComment_uri huri, get_toMap]
   obtain ⟨bandwidth, codecs, uri, averageBandwidth, resolution, frameRate, video, audio, subtitles, closedCaptions⟩ := v
   obtain ⟨⟨hb0, hb1⟩, hab, hcne, hcs, huri, hres, hfr, hvi, hau, hsu, hcc⟩ := h
-  simp only at hb0 hb1 hab hcne hcs huri hres hfr hvi hau hsu hcc
+  simp only at hb0 hb1 hab hcne hcs huri hres hfr hvi hau hsu hcc hfl
   have hbw : parseUint 31 (formatInt bandwidth) = .ok bandwidth.toNat := parseUint_formatInt hb0 (by simpa using hb1)
   have hbw2 : (bandwidth.toNat : Int) = bandwidth := Int.toNat_of_nonneg hb0
   have hcod : splitByte ',' (joinByte ',' codecs) = codecs := splitByte_joinByte hcne (fun x hx => (hcs x hx).2)
@@ -533,37 +544,70 @@ theorem Variant.unmarshal_render (env : FloatEnvelope3) {v : Variant} (h : WFVar
       kBandwidth, kAverageBandwidth, kCodecs, kResolution, kFrameRate, kVideo, kAudio, kSubtitles, kClosedCaptions]
   · simp [hbw, hbw2, hcod, getD_ite_nil'', pure, Except.pure]
   · rename_i f
-    obtain ⟨k, hk, hf, hfmt⟩ := fmtFixed3_of_WF env hfr
-    have hpf : parseFloat (F64.fmtFixed 3 f) = .ok f := by rw [hfmt, hf]; exact env.parse k hk
+    have hpf : parseFloat (F64.fmtFixed 3 f) = .ok f := FrFloatOK_elim hfl
     simp [hbw, hbw2, hcod, hpf, getD_ite_nil'', pure, Except.pure]
   · rename_i a
     have ha : parseUint 31 (formatInt a) = .ok a.toNat := parseUint_formatInt hab.1 (by simpa using hab.2)
     have ha2 : (a.toNat : Int) = a := Int.toNat_of_nonneg hab.1
     simp [hbw, hbw2, hcod, ha, ha2, getD_ite_nil'', pure, Except.pure]
   · rename_i a f
-    obtain ⟨k, hk, hf, hfmt⟩ := fmtFixed3_of_WF env hfr
-    have hpf : parseFloat (F64.fmtFixed 3 f) = .ok f := by rw [hfmt, hf]; exact env.parse k hk
+    have hpf : parseFloat (F64.fmtFixed 3 f) = .ok f := FrFloatOK_elim hfl
     have ha : parseUint 31 (formatInt a) = .ok a.toNat := parseUint_formatInt hab.1 (by simpa using hab.2)
     have ha2 : (a.toNat : Int) = a := Int.toNat_of_nonneg hab.1
     simp [hbw, hbw2, hcod, ha, ha2, hpf, getD_ite_nil'', pure, Except.pure]
 
 
-/-- what the float envelope gives for a legal TIME-OFFSET -/
-theorem start_envelope (env : FloatEnvelope) {t : Start} (h : WFStart t) :
-    ∃ q d' : Int, durFmt5 t.timeOffset = dec5 q ∧ IsQuant5 t.timeOffset q ∧
-      durUnmarshal (dec5 q) = .ok d' ∧ IsDecoded5 q d' ∧ d' ≠ 0 ∧ q ≠ 0 := by
+theorem durFloatCheck_elim {d q : Int} (h : durFloatCheck d q = true) :
+    ∃ d' : Int, durFmt5 d = dec5 q ∧ IsQuant5 d q ∧ durUnmarshal (dec5 q) = .ok d' ∧ IsDecoded5 q d' ∧
+      durFmt5 d' = dec5 q := by
+  unfold durFloatCheck at h
+  simp only [Bool.and_eq_true, beq_iff_eq, decide_eq_true_eq] at h
+  obtain ⟨⟨h1, h2⟩, h3⟩ := h
+  split at h3
+  · rename_i d' hd'
+    simp only [Bool.and_eq_true, beq_iff_eq, decide_eq_true_eq] at h3
+    exact ⟨d', h1, h2, hd', h3.1, h3.2⟩
+  · cases h3
+
+/-- what `DurFloatOK` says -/
+theorem DurFloatOK_elim {d : Int} (h : DurFloatOK d) :
+    ∃ q d' : Int, durFmt5 d = dec5 q ∧ IsQuant5 d q ∧ durUnmarshal (dec5 q) = .ok d' ∧ IsDecoded5 q d' ∧
+      durFmt5 d' = dec5 q := by
+  rcases h with h | h
+  · exact ⟨_, durFloatCheck_elim h⟩
+  · exact ⟨_, durFloatCheck_elim h⟩
+
+/-- the float envelope gives `DurFloatOK` for every legal TIME-OFFSET -/
+theorem DurFloatOK_of_envelope (env : FloatEnvelope) {t : Start} (h : WFStart t) : DurFloatOK t.timeOffset := by
   obtain ⟨h1, h2⟩ := h
   obtain ⟨q, hq1, hq2⟩ := env.fmt t.timeOffset (by simp [durBound]; omega) (by omega)
-  unfold IsQuant5 at hq2
+  have hq2' := hq2
+  unfold IsQuant5 at hq2'
   obtain ⟨d', hd1, hd2⟩ := env.parse q (by simp [durBound]; omega)
-  unfold IsDecoded5 at hd2
-  refine ⟨q, d', hq1, hq2, hd1, hd2, ?_, ?_⟩ <;> omega
+  have hd2' := hd2
+  unfold IsDecoded5 at hd2'
+  obtain ⟨q', hq'1, hq'2⟩ := env.fmt d' (by simp [durBound]; omega) (by omega)
+  unfold IsQuant5 at hq'2
+  have hqq : q' = q := by omega
+  have hcheck : durFloatCheck t.timeOffset q = true := by
+    unfold durFloatCheck
+    simp only [hq1, hd1, beq_self_eq_true, Bool.true_and, Bool.and_eq_true, decide_eq_true_eq, beq_iff_eq]
+    exact ⟨hq2', hd2', by rw [hq'1, hqq]⟩
+  have hcases : q = t.timeOffset / 10000 ∨ q = t.timeOffset / 10000 + 1 := by omega
+  rcases hcases with e | e
+  · left; rw [← e]; exact hcheck
+  · right; rw [← e]; exact hcheck
 
-theorem Start.unmarshal_render (env : FloatEnvelope) {t : Start} (h : WFStart t) :
+theorem Start.unmarshal_render {t : Start} (h : WFStart t) (hfl : DurFloatOK t.timeOffset) :
     ∃ q d' : Int, Start.unmarshal (renderAttrs (startAttrs t)) = .ok { timeOffset := d' } ∧
-      IsQuant5 t.timeOffset q ∧ IsDecoded5 q d' ∧ d' ≠ 0 ∧ durFmt5 t.timeOffset = dec5 q := by
-  obtain ⟨q, d', hfmt, hq, hpar, hd, hne, _⟩ := start_envelope env h
-  refine ⟨q, d', ?_, hq, hd, hne, hfmt⟩
+      IsQuant5 t.timeOffset q ∧ IsDecoded5 q d' ∧ d' ≠ 0 ∧ durFmt5 t.timeOffset = dec5 q ∧ durFmt5 d' = dec5 q := by
+  obtain ⟨q, d', hfmt, hq, hpar, hd, hfix⟩ := DurFloatOK_elim hfl
+  have hne : d' ≠ 0 := by
+    obtain ⟨h1, h2⟩ := h
+    unfold IsQuant5 at hq
+    unfold IsDecoded5 at hd
+    omega
+  refine ⟨q, d', ?_, hq, hd, hne, hfmt, hfix⟩
   have hwf : WFAttrs (startAttrs t) := by
     unfold startAttrs
     refine WFAttrs_cons (WFAttr_unquoted (by decide) ?_ ?_) WFAttrs_nil
@@ -815,7 +859,8 @@ theorem clean_marshalLines {p : Multivariant} (h : WFMultivariant p) :
 
 /-! ## The round trip -/
 
-theorem runLines_variants (env3 : FloatEnvelope3) (vs : List Variant) (h : ∀ v ∈ vs, WFVariant v) (m : Multivariant) :
+theorem runLines_variants (vs : List Variant) (h : ∀ v ∈ vs, WFVariant v)
+    (hfl : ∀ v ∈ vs, OptAll v.frameRate FrFloatOK) (m : Multivariant) :
     runLines m (vs.map (fun v => [tagStreamInf ++ renderAttrs (variantAttrs v), v.uri])).flatten =
       .ok { m with variants := m.variants ++ vs } := by
   induction vs generalizing m with
@@ -823,9 +868,9 @@ theorem runLines_variants (env3 : FloatEnvelope3) (vs : List Variant) (h : ∀ v
   | cons v r ih =>
     simp only [List.map_cons, List.flatten_cons, List.cons_append, List.nil_append]
     rw [runLines_cons_variant _ _ (isStreamInf_streamInf _),
-      variantStep_ok m (Variant.unmarshal_render env3 (h v (by simp)))]
+      variantStep_ok m (Variant.unmarshal_render (h v (by simp)) (hfl v (by simp)))]
     simp only [Except.bind]
-    rw [ih (fun x hx => h x (by simp [hx]))]
+    rw [ih (fun x hx => h x (by simp [hx])) (fun x hx => hfl x (by simp [hx]))]
     simp
 
 theorem runLines_renditions (rs : List Rendition) (h : ∀ r ∈ rs, WFRendition r) (m : Multivariant) (rest : List Str) :
@@ -851,13 +896,14 @@ theorem skipHeader_marshal (p : Multivariant) :
 
 /-- `Unmarshal (Marshal p)` for a well-formed `p`: every field comes back; the only change is the
     EXT-X-START offset, rounded to the text resolution. -/
-theorem unmarshal_marshal (env : FloatEnvelope) (env3 : FloatEnvelope3) {p : Multivariant} (h : WFMultivariant p) :
+theorem unmarshal_marshal {p : Multivariant} (h : WFMultivariant p) (hfl : FloatOK p) :
     ∃ st' : Option Start, Multivariant.unmarshal p.marshal = .ok { p with start := st' } ∧ StartQuant p.start st' ∧
       (Option.map Start.marshal st' = Option.map Start.marshal p.start) := by
   have hclean := clean_marshalLines h
   obtain ⟨⟨hv0, hv1⟩, hst, hne, hvs, hrs⟩ := h
+  obtain ⟨hfs, hfv⟩ := hfl
   obtain ⟨version, indep, start, variants, renditions⟩ := p
-  simp only at hv0 hv1 hst hne hvs hrs
+  simp only at hv0 hv1 hst hne hvs hrs hfs hfv
   have htail : ∀ l ∈ (marshalLines ⟨version, indep, start, variants, renditions⟩).tail, CleanLine l :=
     fun l hl => hclean l (List.mem_of_mem_tail hl)
   unfold Multivariant.unmarshal
@@ -871,7 +917,7 @@ theorem unmarshal_marshal (env : FloatEnvelope) (env3 : FloatEnvelope3) {p : Mul
         ([] :: (variants.map (fun v => [tagStreamInf ++ renderAttrs (variantAttrs v), v.uri])).flatten)) =
       .ok { m with renditions := m.renditions ++ renditions, variants := m.variants ++ variants } := by
     intro m
-    have hv := fun m' => runLines_variants env3 variants hvs m'
+    have hv := fun m' => runLines_variants variants hvs hfv m'
     by_cases hr : renditions.length = 0
     · have : renditions = [] := List.length_eq_zero_iff.mp hr
       subst this
@@ -900,7 +946,7 @@ theorem unmarshal_marshal (env : FloatEnvelope) (env3 : FloatEnvelope3) {p : Mul
       simp only [Except.bind]
       rw [hblock]; simp [hne, pure, Except.pure]
   | some st =>
-    obtain ⟨q, d', hun, hq, hd, hd0, hfmt⟩ := Start.unmarshal_render env hst
+    obtain ⟨q, d', hun, hq, hd, hd0, hfmt, hfix⟩ := Start.unmarshal_render hst hfs
     refine ⟨some { timeOffset := d' }, ?_, ⟨q, hq, hd⟩, ?_⟩
     · cases indep
       · simp only [Bool.false_eq_true, if_false, List.nil_append, List.cons_append]
@@ -915,14 +961,7 @@ theorem unmarshal_marshal (env : FloatEnvelope) (env3 : FloatEnvelope3) {p : Mul
         rw [hblock]; simp [hne, pure, Except.pure]
     · -- Marshal is a fixpoint: the decoded offset prints as the same text
       simp only [Option.map, Start.marshal]
-      have hst' := hst
-      obtain ⟨h1, h2⟩ := hst'
-      unfold IsQuant5 at hq
-      unfold IsDecoded5 at hd
-      obtain ⟨q', hq'1, hq'2⟩ := env.fmt d' (by simp [durBound]; omega) (by omega)
-      unfold IsQuant5 at hq'2
-      have : q' = q := by omega
-      rw [hq'1, this, hfmt]
+      rw [hfix, hfmt]
 
 
 /-! ## Panic freedom (C15) -/
@@ -1824,5 +1863,39 @@ theorem Variant.unmarshal_attr_variant {as bs us : List Attr} {uri : Str} (ha : 
   Variant.unmarshal_congr hbx hax (parseAttrs_render _ hb) (parseAttrs_render _ ha)
     (fun k hk => by rw [get_toMap, get_toMap]; exact lastVal_perm_unknown hp hn hu hk)
 
+
+theorem findType_err (n : Nat) : ∀ (s : Str), s.length ≤ n → ∀ e, findType s = .error e → e = .eof := by
+  induction n with
+  | zero =>
+    intro s hs e h
+    have : s = [] := by cases s with | nil => rfl | cons _ _ => simp at hs
+    subst this
+    rw [findType_no_newline (by simp)] at h
+    cases h; rfl
+  | succ n ih =>
+    intro s hs e h
+    rcases line_decomp s with hn | ⟨l, rest, hs', hl⟩
+    · rw [findType_no_newline hn] at h; cases h; rfl
+    · subst hs'
+      rw [findType_line _ hl] at h
+      split at h
+      · cases h
+      · exact ih rest (by simp at hs; omega) e h
+
+/-! ## From the float envelope to `FloatOK` -/
+
+theorem FloatOK_of_envelope (env : FloatEnvelope) (env3 : FloatEnvelope3) {p : Multivariant} (h : WFMultivariant p) :
+    FloatOK p := by
+  obtain ⟨_, hst, _, hvs, _⟩ := h
+  constructor
+  · exact OptAll_imp hst (fun t ht => DurFloatOK_of_envelope env ht)
+  · intro v hv
+    exact OptAll_imp (hvs v hv).2.2.2.2.2.2.1 (fun f hf => FrFloatOK_of_envelope env3 hf)
+
+theorem FloatOK_of_nofloat {p : Multivariant} (hs : p.start = none) (hv : ∀ v ∈ p.variants, v.frameRate = none) :
+    FloatOK p := by
+  constructor
+  · rw [hs]; trivial
+  · intro v h; rw [hv v h]; trivial
 
 end Hls.Playlist
